@@ -79,6 +79,8 @@ def c03(tier):
     run.add_jobs(jobs_for(more, {"pause": 1, "cancel": 1, "max_nodes": sizes(tier, 800, 5000)}, s, tok="visit"))
     e2 = F.with_e2(F.curated()[:10] + F.curated_items()[:11])
     run.add_jobs(jobs_for(e2, {"pause": 1, "cancel": 1, "sample": sizes(tier, 3, 5), "max_nodes": sizes(tier, 1200, 6000)}, s))
+    run.add_jobs(jobs_for(F.curated()[:12] + F.curated_items() + F.curated_retry()[:6],
+                          {"rerun": 1, "rerun_tasks": True, "max_nodes": sizes(tier, 1200, 6000)}, s))
     return run.finish("model_checking",
                       "every quiescent point (query answered empty, nothing in flight) of the explored trees",
                       ASSUME_COMMON)
@@ -145,6 +147,11 @@ def c18(tier):
                                   "max_nodes": sizes(tier, 1500, 8000)}, s))
     small = [d for d in joins if len(d["tasks"]) <= 4]
     run.add_jobs(jobs_for(small, {"lazy": True, "rerun": 1, "max_nodes": sizes(tier, 2500, 10000)}, s))
+    # recorded context snapshots holding nested values (dict published again with other keys, >= 3 entries merged)
+    from . import datapath as DP
+    paths, res = DP.enumerate_paths(run.tmp)
+    vals = DP.values(s, 40)
+    run.add_groups([dict(g, kind="snapshots") for g in DP.datapath_groups(paths, vals, seed=s, per_value=2)])
     return run.finish("model_checking",
                       "every pair of consecutive recorded states of every explored history",
                       ASSUME_COMMON)
@@ -263,6 +270,8 @@ def c12(tier):
     run.add_jobs(jobs_for(defs, {"pause": 1, "cancel": 1, "max_nodes": sizes(tier, 1500, 6000)}, s, ("yaql", "jinja"), tok="visit"))
     e2 = F.with_e2(F.curated_items(), fates=("s", "f", "C", "P", "t"))
     run.add_jobs(jobs_for(e2, {"pause": 1, "cancel": 1, "sample": sizes(tier, 3, 5), "max_nodes": sizes(tier, 1500, 8000)}, s))
+    # reruns of with-items tasks (failed items only / reset_items), incl. items that timed out or were abandoned
+    run.add_jobs(jobs_for(F.curated_items(), {"rerun": 1, "rerun_tasks": True, "max_nodes": sizes(tier, 1500, 8000)}, s))
     return run.finish("model_checking",
                       "with-items tasks (n in 0..4, concurrency absent/1/2/0/expression; alone, in a branch, as join "
                       "target, parallel, with retry) x item outcome vectors x all report orders x pause/cancel placements",
